@@ -281,3 +281,25 @@ PROPS["C20"] = {
         "technique": "bounded symbolic execution of two invocations from go/ssa with access/lockset recording; SMT decides the isolation assertions; conflicts replayed under go test -race",
     },
 }
+
+ALL_DESIGNS = ["v1", "v2", "v3", "a1", "a2", "e1", "s1", "w1", "w2", "c1", "c2", "c3", "c4"]
+
+PROPS["C01"] = {
+    "level": "other",
+    "jobs": [
+        {"name": "codegen", "pkg": "goa.design/goa/v3/codegen", "pkgdir": "codegen", "pkgname": "codegen", "harness_dir": "codegen",
+         "files": ["zz_verif_c01.go"], "quick": r"^VerifC01_", "thorough": r"^VerifC01T?_"},
+    ],
+    "compile_designs": ALL_DESIGNS,
+    "bounds": {"scope": "4 (Unique) / 4 (HashedUnique over 3 hashes) calls with names from {a,b,a2}+optional digit 1-3, optional suffix", "goify": "every ASCII name of 0..3 bytes, both case modes",
+               "by_product": "13 catalogue designs generated by the real generator and compiled with go build (concrete, not a solver result)"},
+    "assumptions": [],
+    "outside": ["everything template-level for designs outside the catalogue: the property quantifies over all designs and the generator (text/template, go/format, imports) cannot be executed symbolically",
+                "the example generator's output (imports goa.design/clue, which is not in the offline module cache, so it cannot be type-checked here)", "non-ASCII attribute names"],
+    "explanation": "Partial. Two kernels the property is anchored in are decided by symbolic execution + SMT: NameScope.Unique/HashedUnique never hand out one identifier twice (for every sequence of requests within the bound) and Goify returns a legal non-keyword identifier for every ASCII name up to 3 bytes. In addition, as a concrete by-product of the front end (not a solver result), every catalogue design is pushed through eval.RunDSL + generator.Generate and the generated gen/ packages are compiled; a design that is accepted but does not compile is a confirmed violation whose replay is the design itself.",
+    "manifest": {
+        "text": "Partial. Solver-decided: uniqueness of generated identifiers for every bounded request sequence to the name scope; Goify output is a legal, non-reserved identifier for every ASCII name up to 3 bytes. Concrete by-product: the 13 catalogue designs are generated by the real generator and the emitted packages compiled with the Go compiler. The universal claim over designs is not decided.",
+        "note": "Trusted: gosym executor, z3, the Go compiler for the by-product. Three genuine defects are listed in known_findings.json (attribute names shadowing generated locals, duplicate body type for recursive views, Goify of names starting with a digit).",
+        "technique": "bounded symbolic execution + SMT for the identifier kernels; concrete generate-and-compile of the catalogue designs as a by-product",
+    },
+}
